@@ -1,12 +1,23 @@
 """C06 - modular tokenization is a faithful, decodable encoding of the maze."""
 ID = "C06"
 LEVEL = "exploration"
-LEVEL_TEXT = "PROVED (unbounded, z3): the two leaf functions that give direction tokens their meaning - get_cardinal_direction (rows grow southwards, columns eastwards) and get_relative_direction (STAY/BACKWARD/FORWARD and LEFT/RIGHT as rotations on the drawn maze, ValueError exactly for non-neighbouring or indeterminate inputs). Bounded, with the statement's own quantifier: an independent decoder configured only from the tokenizer's parameters recovers regions, edge sets with marks, origin, target and step sequences, exhaustively per region over all 216 adjacency-list and 1008 path element configurations (a stratified slice in the quick tier) plus a pairwise-covering set of full configurations, on mazes of all three kinds."
-LEVEL_NOTE = "Trusted: nothing beyond the harness's own decoder; the dynamic composition of tokenizer elements is outside the verified subset."
-TECHNIQUE = "contracts on the leaf functions discharged by z3 (pyvc) + bounded stand-in of the contract-based verifier: run-time checking of the real code against an independent executable statement over an enumerated scope (the proved leaf functions are listed in evidence; the property as a whole is decided by the bounded stand-in)"
-CONTRACT_MODULES = ['contracts.token_utils']
-PROVE = [('maze_dataset/token_utils.py', 'get_cardinal_direction'), ('maze_dataset/token_utils.py', 'get_relative_direction')]
-ASSUMPTIONS = []
+LEVEL_TEXT = (
+    "PROVED (z3, unbounded in the solution length): the leaves that carry the MEANING of the path tokens. get_cardinal_direction / get_relative_direction (NORTH/SOUTH/WEST/EAST with rows growing "
+    "southwards and columns eastwards; FORWARD/BACKWARD/LEFT/RIGHT/STAY with left and right as seen on the drawn maze; ValueError exactly for non-steps); StepTokenizers.Cardinal.to_tokens (one token: the "
+    "direction in which the path LEAVES the step's start) and StepTokenizers.Relative.to_tokens (one token: the turn relative to the direction of arrival, the agent facing north before the first step); "
+    "StepSizes.Singles (every solution index), StepSizes.Forks (exactly the forks of the solution plus both ends, by the forking-point contract of C13) and step_start_end_indices (steps are the consecutive "
+    "pairs of step ends, for any step size); is_connection (the connector / wall mark of an edge is edge(a,b), under C13). The composition of tokenizer elements (dynamic dispatch, region assembly, "
+    "coordinate tokens, the Distance vocabulary lookup) is outside the verified subset and is decided by the bounded stand-in, which implements the statement's own quantifier: "
+    + "PROVED (unbounded, z3): the two leaf functions that give direction tokens their meaning - get_cardinal_direction (rows grow southwards, columns eastwards) and get_relative_direction (STAY/BACKWARD/FORWARD and LEFT/RIGHT as rotations on the drawn maze, ValueError exactly for non-neighbouring or indeterminate inputs). Bounded, with the statement's own quantifier: an independent decoder configured only from the tokenizer's parameters recovers regions, edge sets with marks, origin, target and step sequences, exhaustively per region over all 216 adjacency-list and 1008 path element configurations (a stratified slice in the quick tier) plus a pairwise-covering set of full configurations, on mazes of all three kinds."
+)
+LEVEL_NOTE = "Trusted: pyvc encoding; np.concatenate / np.expand_dims library models. The dynamic composition of tokenizer elements is outside the verified subset; the bounded decoder is the harness's own."
+TECHNIQUE = "bounded run-time checking of the real tokenizers against an independent decoder over enumerated element configurations and mazes + contracts on the direction / step-size / step-token leaves discharged by z3"
+CONTRACT_MODULES = ["contracts.lattice_maze", "contracts.token_utils", "contracts.steps"]
+TU = "maze_dataset/token_utils.py"
+MT = "maze_dataset/tokenization/maze_tokenizer.py"
+PROVE = [(TU, "get_cardinal_direction"), (TU, "get_relative_direction"), (MT, "StepTokenizers.Cardinal.to_tokens"), (MT, "StepTokenizers.Relative.to_tokens"),
+         (MT, "StepSizes.Singles._step_single_indices"), (MT, "StepSizes.Forks._step_single_indices"), (MT, "StepSizes._StepSize.step_start_end_indices")]
+ASSUMPTIONS = ["consecutive solution cells are lattice-adjacent (what SolvedMaze solutions are); start_index + 1 < len(solution)"]
 EXPLANATION = "see DESIGN.md C06"
 
 
